@@ -12,6 +12,7 @@ import (
 	"pgregory.net/rapid"
 	"verif/harness/graph"
 	"verif/harness/kit"
+	"verif/harness/model"
 	"verif/harness/zoo"
 )
 
@@ -404,6 +405,17 @@ func TestRealStartHistories(t *testing.T) {
 			}
 		}
 		in := s.Instantiate()
+		// sometimes a substituting post-processor takes part (early references that differ from the raw component)
+		if rapid.IntRange(0, 2).Draw(t, "withwrap") == 0 {
+			wrap := &graph.WrapPP{Plan: map[string]graph.WrapPlan{}}
+			for i, n := range s.Nodes {
+				if n.Variant != 'N' && rapid.Bool().Draw(t, "wrap") {
+					nm, _ := model.NameOf(in.Comps[i])
+					wrap.Plan[nm] = graph.WrapPlan{Early: rapid.IntRange(0, 1).Draw(t, "e"), After: rapid.IntRange(0, 2).Draw(t, "a")}
+				}
+			}
+			in.Extra = append(in.Extra, wrap)
+		}
 		in.Run()
 		desc := "real " + s.Shape()
 		if in.Out.Panic != nil {
@@ -436,6 +448,9 @@ func TestRealStartHistories(t *testing.T) {
 				}
 				labels = append(labels, "lookup-after-failure-recreates")
 				// a re-attempt that succeeded: the component must really be initialised
+				if _, isW := got.(*zoo.W); isW {
+					continue
+				}
 				if nd, ok := got.(zoo.INode); ok {
 					b := nd.Beh()
 					if b.InitCalls == 0 || (b.FailInit == zoo.FailAlways) || (b.FailAPS == zoo.FailAlways) {
